@@ -397,11 +397,11 @@ var fmtNearPorts = map[string]struct {
 	"pp.fmtInteger":          {[]string{"MaxRune", "badVerb"}, nil, "the port keeps the `v <= utf8.MaxRune` guard of %q"},
 	"pp.fmtBytes": {[]string{"writeByte () ) '[' ()", "range:=", "if _ bin< (0 ()", "writeByte () ) ' ' ()", "fmtInteger () ) call (uint64", "writeByte () ) ']' ()"}, []string{"printValue"},
 		"other verbs: fmt falls back to reflection, which formats the bytes one by one as integers; the port's default arm does that directly"},
-	"pp.badVerb": {[]string{"arg () ) String ()", "UndefinedValue () String ()"}, []string{"TypeOf", "IsValid", "Type ()", "printValue", "nilAngleString", "'=' ()"}, "objects print through String(); there is no reflect.Value (the visible difference is the listed finding diverges/bad-verb-shows-value)"},
+	"pp.badVerb": {[]string{"arg () ) String ()", "UndefinedValue () String ()"}, []string{"TypeOf", "IsValid", "Type ()", "printValue", "\"<nil>\"", "'=' ()"}, "objects print through String(); there is no reflect.Value (the visible difference is the listed finding diverges/bad-verb-shows-value)"},
 	"intFromArg": {[]string{"DeclStmt", "ToInt64", "call (int () $", "if _ call (tooLarge", "() 0 () ) |"}, []string{"TypeAssertExpr", "un! ($5", "switch assign:=", "=case", "case Int ()", "case Uint ()", "SelectorExpr ($6 () Int ()", "SelectorExpr ($6 () Uint ()", "bin== (call (int64", "bin&& (bin<= (0", "assign= ($4 () call (int ()", "assign= ($5 () true ()", "tooLarge", "assign= ($4 () 0 ()"},
 		"the argument is converted with ToInt64 instead of a type switch over Go's integer kinds (the visible difference is the listed finding diverges/star-arg-accepts-non-int)"},
 	"pp.doFormat": {[]string{"=defer", "zero () ) un! (", "zero () ) false ()", "'v' () ) |", "UndefinedValue () String ()", "TypeName ()", "ReturnStmt (nil ()"},
-		[]string{"zero () ) true", "switch _ $", "wrappedErrs", "fallthrough", "'w' ()", "=case 'v' () |", "nilAngleString", "TypeOf"},
+		[]string{"zero () ) true", "switch _ $", "wrappedErrs", "fallthrough", "'w' ()", "=case 'v' () |", "\"<nil>\"", "TypeOf"},
 		"doPrintf of a newer fmt: %w bookkeeping, '0' after '-' handled in the flag switch, objects print through TypeName()/String(); the recover wrapper and the error result are the port's"},
 	"pp.badArgNum":  {nil, nil, "writes go through pp's Write* methods"},
 	"pp.missingArg": {nil, nil, "writes go through pp's Write* methods"},
